@@ -1,4 +1,4 @@
--- Recorded by tools/snap_accept.sh from /repo at d601844: the digests of the statements the models were written against
+-- Recorded by tools/snap_accept.sh from /repo at 027b8ad: the digests of the statements the models were written against
 namespace Emerge.Ref.SrcSnap
 
 def digest_C01 : Nat := 0x93e9b3c64391f96f3683de11fbd96709
@@ -13,8 +13,8 @@ def count_C03 : Nat := 9
 def digest_C04 : Nat := 0xb7295ad77636e1a79227c1cbd8405034
 def count_C04 : Nat := 12
 
-def digest_C05 : Nat := 0x74ef4f7f4a998fc422a162bf05da931f
-def count_C05 : Nat := 9
+def digest_C05 : Nat := 0xbd5a14d1c7c4eb0220df69ba8d5b1b2c
+def count_C05 : Nat := 16
 
 def digest_C06 : Nat := 0xfcc70ba3121db6884582b37fec3dbc3a
 def count_C06 : Nat := 16
@@ -37,7 +37,7 @@ def count_C11 : Nat := 37
 def digest_C12 : Nat := 0x4f596da4ac9b5de0efeff0c63f981774
 def count_C12 : Nat := 10
 
-def digest_C13 : Nat := 0x83836551481ed816fec21189fb0a1032
+def digest_C13 : Nat := 0x36073a88e101f990285f86741882b50c
 def count_C13 : Nat := 6
 
 def digest_C14 : Nat := 0x8748eb7682700484af04fe6d215a1d1a
@@ -58,7 +58,7 @@ def count_C18 : Nat := 9
 def digest_C19 : Nat := 0x174cb34dd963459e5df5f7cb80274cb4
 def count_C19 : Nat := 8
 
-def digest_C20 : Nat := 0x1a1f0d2ee15a8d9b4b28c9fe5e33d128
+def digest_C20 : Nat := 0x0cfe4f63acac85043cd2e1d55ee96d8a
 def count_C20 : Nat := 7
 
 end Emerge.Ref.SrcSnap
